@@ -552,10 +552,13 @@ URet(c, res, code, msg, ndet, pay) ==
                    \/ x.fpay = "raw!" ) = TRUE                     \* undecodable body
   /\ CUpd(c, [calls[c] EXCEPT !.uret = TRUE])
 
+\* the stream was (or is being) torn down by its own refused Send: SendMsg may not have returned yet
+SendTornDown(c) == calls[c].sendFailed \/ ("cwfail" \in flt /\ calls[c].nOk < Len(calls[c].sent))
+
 SOpenRet(c, res) ==
   /\ c \in DOMAIN calls /\ calls[c].kind # "unary" /\ calls[c].opened = ""
   /\ res = "ok" => calls[c].id # ""                 \* the open envelope was written
-  /\ G("fault", res = "err" => CtxDone(c) \/ CliDown)
+  /\ G("fault", res = "err" => CtxDone(c) \/ CliDown \/ "cwfail" \in flt)      \* (a refused write of the opening envelope)
   /\ CUpd(c, [calls[c] EXCEPT !.opened = res])
 
 SSend(c, pay) ==
@@ -607,7 +610,7 @@ SRecvRet(c, res, code, msg, ndet, pay, plain) ==
         /\ CUpd(c, [k EXCEPT !.term = "eof"])
      \/ /\ res = "err"
         /\ (code # OK \/ plain) = TRUE
-        /\ G("status", HandlerOkHealthy(c) => CtxDone(c) \/ k.sendFailed \/ x.fbad \/ k.term = "err"
+        /\ G("status", HandlerOkHealthy(c) => CtxDone(c) \/ SendTornDown(c) \/ x.fbad \/ k.term = "err"
                                               \/ (plain /\ k.recvd < Len(x.bodies) /\ x.bodies[k.recvd + 1] = "raw!"))
         /\ ( \/ "status" \in Off
              \/ x.close = "err" /\ code = x.code /\ msg = x.msg /\ ndet = x.ndet   \* C03
@@ -618,7 +621,7 @@ SRecvRet(c, res, code, msg, ndet, pay, plain) ==
              \/ code \in CtxCodes(c)                                               \* C07
              \/ "ctx" \in Off /\ CtxCodes(c) # {}
              \/ "cread" \in flt
-             \/ k.sendFailed                     \* the stream was torn down by its own failed Send
+             \/ SendTornDown(c)                  \* the stream was torn down by its own failed Send
              \/ x.fbad
              \/ plain /\ k.recvd < Len(x.bodies) /\ x.bodies[k.recvd + 1] = "raw!"
              \/ k.term = "err" /\ code = k.tcode ) = TRUE
@@ -736,9 +739,11 @@ HCauseSeen(h) == \/ hnds[h].rst
 LiveLegit(v) ==
   LET h == v.h IN
   /\ h \in DOMAIN hnds
-  /\ G("ctx", v.res = "live" => ~HCauseSeen(h))                     \* C07 / C10: cancelled with its cause
+  \* (parked > 0: the scheduler holds some goroutine at a gate - what that goroutine would have
+  \* delivered has not happened yet)
+  /\ G("ctx", v.res = "live" => parked > 0 \/ ~HCauseSeen(h))       \* C07 / C10: cancelled with its cause
   /\ G("pend", v.in = "recv" => /\ v.res = "live"                   \* blocked calls unblock on the context
-                                /\ hnds[h].nrecv = Len(Sin(hnds[h].id).items)) \* and on data
+                                /\ (parked > 0 \/ hnds[h].nrecv = Len(Sin(hnds[h].id).items))) \* and on data
   /\ G("pend", v.in = "send" => Stuck)
   /\ G("pend", v.in = "ctxwait" => v.res = "live")
 
